@@ -452,3 +452,175 @@ func (f *FCFG) edgeDominates(b *cfg.Block, k int, target *cfg.Block) bool {
 	}
 	return !dfs(f.G.Blocks[0])
 }
+
+func init() {
+	register(&Rule{ID: "TRO.tail-forwarders", Floor: 12,
+		Doc: "the constructs documented as preserving tail position hand their last expression on instead of evaluating it: funcall/apply return an evaluator call only after marking the frame terminal; if, cond, progn, let, let*, flet, labels, macrolet, or, thread-first, thread-last and dotimes never return the result of an evaluator call but reach (*LEnv).Terminal",
+		Run: func(c *Ctx) []Obligation {
+			term := c.LookupMethod("lisp.LEnv.Terminal")
+			termFld := c.LookupField("lisp.CallFrame.Terminal")
+			if term == nil || termFld == nil {
+				return []Obligation{anchorMissing("TRO.tail-forwarders", "LEnv.Terminal / CallFrame.Terminal")}
+			}
+			reach := c.staticReach(func(p string) bool { return rel(p) == "lisp" }, term)
+			ev := c.evalLikeSet()
+			var obs []Obligation
+			byFlag := map[string]bool{"funcall": true, "apply": true}
+			byMark := map[string]bool{"if": true, "cond": true, "progn": true, "let": true, "let*": true, "flet": true, "labels": true,
+				"macrolet": true, "or": true, "thread-first": true, "thread-last": true, "dotimes": true}
+			for _, e := range c.Registry() {
+				if rel(e.Pkg.PkgPath) != "lisp" || (!byFlag[e.Name] && !byMark[e.Name]) {
+					continue
+				}
+				body, u, lit, ok := c.BodyOf(e)
+				if !ok {
+					obs = append(obs, Obligation{Rule: "TRO.tail-forwarders", Func: "lisp." + e.Table, Construct: "construct " + e.Name, Verdict: Undecided, Detail: "no body"})
+					continue
+				}
+				info := u.Pkg.TypesInfo
+				fc := c.cfgOf(u, lit)
+				stores := fc.blocksWith(func(n ast.Node) bool {
+					as, ok := n.(*ast.AssignStmt)
+					return ok && len(as.Lhs) == 1 && len(as.Rhs) == 1 && FieldOfSelector(info, as.Lhs[0]) == termFld && isBoolConst(info, as.Rhs[0], true)
+				})
+				bad := ""
+				nret := 0
+				ast.Inspect(body, func(n ast.Node) bool {
+					if _, isLit := n.(*ast.FuncLit); isLit {
+						return false
+					}
+					rs, ok := n.(*ast.ReturnStmt)
+					if !ok || len(rs.Results) != 1 {
+						return true
+					}
+					ce, ok := ast.Unparen(rs.Results[0]).(*ast.CallExpr)
+					if !ok {
+						return true
+					}
+					fn := originOf(Callee(info, ce))
+					if fn == nil || !ev[fn] {
+						return true
+					}
+					nret++
+					if byFlag[e.Name] {
+						loc, found := fc.Locate(rs)
+						if !found || len(stores) == 0 || fc.reachableAvoidingBlocks(loc.B, nil, stores) && !stores[loc.B] {
+							bad = "returns " + fn.Name() + "(...) on a path that has not set Top().Terminal = true"
+						}
+					} else {
+						bad = "returns the result of " + fn.Name() + "(...) instead of env.Terminal(expr): the last form is evaluated on a new Go/elps frame"
+					}
+					return true
+				})
+				construct := "construct " + e.Name
+				switch {
+				case bad != "":
+					obs = append(obs, mkOb(c, "TRO.tail-forwarders", u, construct, body, Violated, bad+" — a loop through this construct grows the stack with every iteration", true))
+				case byMark[e.Name] && !reach[u.Obj]:
+					obs = append(obs, mkOb(c, "TRO.tail-forwarders", u, construct, body, Violated, "no static call chain to (*LEnv).Terminal: the construct cannot hand on its tail expression", true))
+				case byFlag[e.Name] && nret == 0:
+					obs = append(obs, mkOb(c, "TRO.tail-forwarders", u, construct, body, Violated, "no tail evaluator call", true))
+				default:
+					obs = append(obs, mkOb(c, "TRO.tail-forwarders", u, construct, body, Proved, "tail expression is handed on (terminal mark / Terminal flag) on every return that evaluates", true))
+				}
+			}
+			return obs
+		}})
+
+	register(&Rule{ID: "TRO.scan-complete", Floor: 3,
+		Doc: "TerminalFID scans the whole frame chain: its loop runs from len(Frames)-1 down to 0 and every early exit inside it is decided only by fields of Frames[i] (Terminal, TROBlock, FID)",
+		Run: func(c *Ctx) []Obligation {
+			fn, fd, pkg := c.LookupFunc("lisp.(*CallStack).TerminalFID")
+			frames := c.LookupField("lisp.CallStack.Frames")
+			if fn == nil || frames == nil {
+				return []Obligation{anchorMissing("TRO.scan-complete", "TerminalFID/Frames")}
+			}
+			u := FuncUnit{fn, fd, pkg}
+			info := pkg.TypesInfo
+			var loop *ast.ForStmt
+			ast.Inspect(fd.Body, func(n ast.Node) bool {
+				if f, ok := n.(*ast.ForStmt); ok && loop == nil {
+					loop = f
+				}
+				return true
+			})
+			var obs []Obligation
+			if loop == nil {
+				return []Obligation{mkOb(c, "TRO.scan-complete", u, "scan loop", fd, Undecided, "no for loop", false)}
+			}
+			// init: i := len(s.Frames) - 1 ; cond: i >= 0 ; post: i--
+			var iObj types.Object
+			okInit, okCond, okPost := false, false, false
+			if as, ok := loop.Init.(*ast.AssignStmt); ok && len(as.Lhs) == 1 && len(as.Rhs) == 1 {
+				iObj = identObj(info, as.Lhs[0])
+				if be, ok := ast.Unparen(as.Rhs[0]).(*ast.BinaryExpr); ok && be.Op == token.SUB {
+					if k, okc := intConst(info, be.Y); okc && k == 1 {
+						if ce, ok := ast.Unparen(be.X).(*ast.CallExpr); ok && len(ce.Args) == 1 && FieldOfSelector(info, ce.Args[0]) == frames {
+							okInit = true
+						}
+					}
+				}
+			}
+			if be, ok := ast.Unparen(loop.Cond).(*ast.BinaryExpr); ok && iObj != nil && identObj(info, be.X) == iObj {
+				if k, okc := intConst(info, be.Y); okc && ((be.Op == token.GEQ && k == 0) || (be.Op == token.GTR && k == -1)) {
+					okCond = true
+				}
+			}
+			if id, ok := loop.Post.(*ast.IncDecStmt); ok && id.Tok == token.DEC && identObj(info, id.X) == iObj {
+				okPost = true
+			}
+			if okInit && okCond && okPost {
+				obs = append(obs, mkOb(c, "TRO.scan-complete", u, "scan range", loop, Proved, "i runs from len(Frames)-1 down to 0", true))
+			} else {
+				obs = append(obs, mkOb(c, "TRO.scan-complete", u, "scan range", loop, Violated, "the terminal-chain scan does not cover every frame from the top to the bottom of the stack", true))
+			}
+			// conditions inside the loop mention only Frames[i].<field> against constants / fid
+			ord := &ordinal{}
+			ast.Inspect(loop.Body, func(n ast.Node) bool {
+				is, ok := n.(*ast.IfStmt)
+				if !ok {
+					return true
+				}
+				good := true
+				ast.Inspect(is.Cond, func(m ast.Node) bool {
+					id, ok := m.(*ast.Ident)
+					if !ok {
+						return true
+					}
+					o := info.Uses[id]
+					if v, ok := o.(*types.Var); ok && !v.IsField() {
+						// allowed variables: i (as index), the receiver, the fid parameter
+						if o == iObj {
+							// must appear only as an index
+							return true
+						}
+						if _, isParam := o.(*types.Var); isParam && (v.Name() == "fid" || v == info.Defs[fd.Recv.List[0].Names[0]]) {
+							return true
+						}
+						good = false
+					}
+					return true
+				})
+				// i must not be compared: conditions of the form `i < k` / `len(..)-i > k`
+				ast.Inspect(is.Cond, func(m ast.Node) bool {
+					be, ok := m.(*ast.BinaryExpr)
+					if !ok {
+						return true
+					}
+					switch be.Op {
+					case token.LSS, token.LEQ, token.GTR, token.GEQ:
+						good = false
+					}
+					return true
+				})
+				construct := ord.next("exit condition " + types.ExprString(is.Cond))
+				if good {
+					obs = append(obs, mkOb(c, "TRO.scan-complete", u, construct, is, Proved, "decided by fields of Frames[i] only", false))
+				} else {
+					obs = append(obs, mkOb(c, "TRO.scan-complete", u, construct, is, Violated, "an exit of the terminal-chain scan depends on something other than the frames' own flags (e.g. a distance bound): longer tail chains are no longer recognised and the stack grows", true))
+				}
+				return true
+			})
+			return obs
+		}})
+}
